@@ -92,6 +92,8 @@ func FromString[T fixed.Dx](str string) (Int[T], error) {
 		if value < 0 {
 			neg = true
 			value = -value
+		} else if parts[0][0] == '-' {
+			neg = true
 		}
 		value *= mult
 	}
